@@ -29,7 +29,9 @@ struct no_verdict { const char *why; };
 
 // CRAB_ERROR ends the path instead of exiting the process (both modes)
 #undef CRAB_ERROR
-#define CRAB_ERROR(...) throw sxe::abort_path{"CRAB_ERROR"}
+#define SX_STR2(x) #x
+#define SX_STR(x) SX_STR2(x)
+#define CRAB_ERROR(...) throw sxe::abort_path{"CRAB_ERROR at " __FILE__ ":" SX_STR(__LINE__)}
 
 namespace sx {
 typedef ikos::z_number znum;
